@@ -193,6 +193,24 @@ func execFedreq(op string, args []string) string {
 	if fr == nil {
 		return "err:" + strconv.Itoa(resp.Code)
 	}
+	// "reports exactly the ... body that was signed" - and keeps reporting it: the receiver goes on to its next requests while
+	// the handler of this one still holds the report.  Two further requests with bodies of the same length (one refused for
+	// lack of a header, one with a header that does not verify) are received before the report is read (seed C13-r6m1).
+	for _, auth := range []string{"", `X-Matrix origin="decoy.example",key="ed25519:1",sig="AAAA"`} {
+		n := len(fr.Content())
+		if n < 12 {
+			n = 12
+		}
+		decoyBody := []byte(`{"decoy":"` + strings.Repeat("x", n-12) + `"}`)
+		decoy, derr := http.NewRequest("PUT", "/_matrix/federation/v1/send/decoy", bytes.NewReader(decoyBody))
+		if derr == nil {
+			decoy.Header.Set("Content-Type", "application/json")
+			if auth != "" {
+				decoy.Header.Set("Authorization", auth)
+			}
+			_, _ = fclient.VerifyHTTPRequest(decoy, time.UnixMilli(now), spec.ServerName(unhx(args[17])), isLocal, ring)
+		}
+	}
 	return "ok:" + hx([]byte(fr.Method())) + "," + hx([]byte(fr.RequestURI())) + "," + hx([]byte(fr.Origin())) + "," +
 		hx([]byte(fr.Destination())) + "," + fedContentOut(fr.Content())
 }
